@@ -38,7 +38,7 @@ where
     let mut guard = 0;
     loop {
         guard += 1;
-        if guard > 64 {
+        if guard > 1_000_000 {
             break;
         }
         let mut fut = Box::pin(stream.next());
@@ -185,7 +185,8 @@ pub struct Letter {
     pub is_final: bool,
 }
 
-/// The reply alphabet of a sequence: every variant with a minimal and a fully populated body.
+/// The reply alphabet of a sequence: every variant with a minimal body, a body of more than 255
+/// bytes (where the type has a variable-length field) and a fully populated body.
 pub fn letters(table: &Table, def: &SeqDef) -> Vec<Letter> {
     let codec = Codec::new(table);
     let reply = crate::real::reply_table();
@@ -197,10 +198,15 @@ pub fn letters(table: &Table, def: &SeqDef) -> Vec<Letter> {
         for pick in [0usize, 1] {
             cands.push((format!("full{pick}"), all_present(table, ty, pick, 1)));
         }
+        // a body beyond the 254/255 switch of the APDU length (5-byte header), where the type has a
+        // variable-length field
+        if let Some(path) = variable_leaves(table, ty).first() {
+            cands.insert(1, ("big".into(), sized(table, ty, path, 300)));
+        }
         let mut got = 0;
         let mut seen: Vec<Vec<u8>> = vec![];
         for (label, v) in cands {
-            if got >= 2 {
+            if got >= 3 {
                 break;
             }
             let Some(bytes) = codec.canonical(ty, &v) else { continue };
